@@ -41,6 +41,9 @@ func newLedgerRun(r *vfw.Run, o scen.Opts, minRounds, spanRounds int) *ledgerRun
 	if r.Choose("cfg.bringonline", 5) != 0 {
 		lr.l.BringOnline(lr.nodes)
 	}
+	if r.Choose("cfg.seedinviteepool", 3) == 0 {
+		lr.l.SeedInviteePool(lr.nodes)
+	}
 	lr.rounds = minRounds + r.Choose("cfg.rounds", spanRounds+1)
 	return lr
 }
